@@ -153,7 +153,7 @@ CHECKS.update({
         'setter invalidation table covers the dependency relation; the table EXTRACTED FROM THE SOURCE on every run is '
         'shown to cover it by decide (minus the listed gap use_nugget -> cof), hence every read equals a fresh instance; '
         'the gap is witnessed. Tie: translator (invalidation sets per setter incl. understood guards) + after every '
-        'operation the pattern of filled private caches vs the model + every read vs a freshly built instance.',
+        'operation the pattern of filled private caches vs the model + every read vs a freshly built instance. The skeleton of the lazy getters (which cache guards which recomputation, which getters call which) is extracted from the source and pinned (C06_source_getters).',
    note='Known findings D7, D8-ii/iii/iv (resolution of maxlag at assignment time is not a cache of the model). '
         'fit_method="manual" is outside the alphabet.',
    technique='Lean 4 proof (invariant by induction over operation histories; decide on the generated table) + translator + history correspondence', design='6 C06'),
